@@ -21,14 +21,52 @@ pub fn reduced_bit_depth_16_to_8(png: &PngImage, force_scale: bool) -> Option<Pn
         return None;
     }
 
+    // A transparency key with differing bytes in any component cannot match any pixel
+    let color_type = trns_16_to_8(&png.ihdr.color_type, |v| {
+        let [hi, lo] = v.to_be_bytes();
+        (hi == lo).then_some(hi)
+    });
+
     Some(PngImage {
         data: png.data.chunks_exact(2).map(|pair| pair[0]).collect(),
         ihdr: IhdrData {
-            color_type: png.ihdr.color_type.clone(),
+            color_type,
             bit_depth: BitDepth::Eight,
             ..png.ihdr
         },
     })
+}
+
+/// Convert the 16-bit transparency key of a color type (if any) to 8-bit, one component at a time.
+/// If any component cannot be converted the key is dropped.
+fn trns_16_to_8(color_type: &ColorType, convert: impl Fn(u16) -> Option<u8>) -> ColorType {
+    match color_type {
+        ColorType::Grayscale {
+            transparent_shade: Some(shade),
+        } => ColorType::Grayscale {
+            transparent_shade: convert(*shade).map(u16::from),
+        },
+        ColorType::RGB {
+            transparent_color: Some(color),
+        } => ColorType::RGB {
+            transparent_color: match (convert(color.r), convert(color.g), convert(color.b)) {
+                (Some(r), Some(g), Some(b)) => Some(rgb::RGB16::new(r.into(), g.into(), b.into())),
+                _ => None,
+            },
+        },
+        _ => color_type.clone(),
+    }
+}
+
+/// Scale a 16-bit sample to 8-bit, rounding to the nearest value
+fn scale_16_to_8(hi: u8, lo: u8) -> u8 {
+    if hi == lo {
+        return hi;
+    }
+    // See: http://www.libpng.org/pub/png/spec/1.2/PNG-Decoders.html#D.Sample-depth-rescaling
+    // This allows values such as 0x00FF to be rounded to 0x01 rather than truncated to 0x00
+    let val = f32::from(u16::from_be_bytes([hi, lo]));
+    (val * (255.0 / 65535.0)).round() as u8
 }
 
 /// Forcibly reduce a 16-bit image to 8-bit by scaling, returning the reduced image if successful
@@ -42,21 +80,19 @@ pub fn scaled_bit_depth_16_to_8(png: &PngImage) -> Option<PngImage> {
     let data = png
         .data
         .chunks_exact(2)
-        .map(|pair| {
-            if pair[0] == pair[1] {
-                return pair[0];
-            }
-            // See: http://www.libpng.org/pub/png/spec/1.2/PNG-Decoders.html#D.Sample-depth-rescaling
-            // This allows values such as 0x00FF to be rounded to 0x01 rather than truncated to 0x00
-            let val = f32::from(u16::from_be_bytes([pair[0], pair[1]]));
-            (val * (255.0 / 65535.0)).round() as u8
-        })
+        .map(|pair| scale_16_to_8(pair[0], pair[1]))
         .collect();
+
+    // The transparency key is scaled like any other sample so that it keeps matching its pixels
+    let color_type = trns_16_to_8(&png.ihdr.color_type, |v| {
+        let [hi, lo] = v.to_be_bytes();
+        Some(scale_16_to_8(hi, lo))
+    });
 
     Some(PngImage {
         data,
         ihdr: IhdrData {
-            color_type: png.ihdr.color_type.clone(),
+            color_type,
             bit_depth: BitDepth::Eight,
             ..png.ihdr
         },
